@@ -19,20 +19,14 @@ theorem fastaParse_ne_panic (s : PS) : (fastaParse.run' s).1 ≠ .error .panic :
 theorem scanLoop_ne_panic : ∀ fuel s, scanLoop fuel s ≠ .panic
   | 0, _ => by simp [scanLoop]
   | fuel + 1, s => by
-    unfold scanLoop
     have hp := fastaParse_ne_panic s
-    rcases hrun : fastaParse.run' s with ⟨r, s'⟩
-    rw [hrun] at hp
-    rcases r with e | v
-    · cases e
-      · simp
-      · exact absurd rfl hp
-    · dsimp only
-      have ih := scanLoop_ne_panic fuel s'
-      cases hl : scanLoop fuel s' with
-      | done rs c => simp
-      | panic => exact absurd hl ih
-      | unmodelled => simp
+    have ih := scanLoop_ne_panic fuel
+    unfold scanLoop
+    repeat' split
+    all_goals first
+      | (intro h; cases h; done)
+      | exact ih _
+      | (rename_i heq; rw [heq] at hp; exact absurd rfl hp)
 
 /-- the first, pushed parse of the auto scanner ends with a value or a plain failure -/
 theorem first_run (s : PS) :
@@ -57,20 +51,30 @@ theorem scanAll_ne_panic (auto : Bool) (text : Bytes) : scanAll auto text ≠ .p
   | false => exact scanLoop_ne_panic _ _
   | true =>
     show scanFirstAuto ⟨text, []⟩ ≠ .panic
+    obtain ⟨o, s1, e⟩ := first_run ⟨text, []⟩
+    have hl := scanLoop_ne_panic ((drop.run' s1).2.rest.length + 1) (drop.run' s1).2
     unfold scanFirstAuto
-    split
-    · simp
-    · dsimp only
-      obtain ⟨o, s1, e⟩ := first_run ⟨text, []⟩
-      rw [e]
-      cases o with
-      | none => simp
-      | some r =>
-        dsimp only
-        have := scanLoop_ne_panic ((drop.run' s1).2.rest.length + 1) (drop.run' s1).2
-        cases hl : scanLoop ((drop.run' s1).2.rest.length + 1) (drop.run' s1).2 with
-        | done rs c => simp
-        | panic => exact absurd hl this
-        | unmodelled => simp
+    -- two shapes of `scanFirstAuto` are handled: with and without the leading "nothing to
+    -- read" test of repo b5ab011
+    first
+    | (split
+       · simp
+       · dsimp only
+         rw [e]
+         cases o with
+         | none => simp
+         | some r =>
+           dsimp only
+           cases hl' : scanLoop ((drop.run' s1).2.rest.length + 1) (drop.run' s1).2 with
+           | done rs c => simp
+           | panic => exact absurd hl' hl
+           | unmodelled => simp)
+    | (rw [e]
+       repeat' split
+       all_goals first
+         | (intro h; cases h; done)
+         | (rename_i heq; cases heq; dsimp only; split <;> first | (intro h; cases h; done) | exact hl)
+         | (rename_i heq; cases heq; exact hl)
+         | (rename_i heq; cases heq))
 
 end Gts.Fasta
